@@ -1081,6 +1081,21 @@ func VerifInjBase(kv map[string]string) string {
 		if _, ok := files[want]; want != "" && !ok {
 			norender = append(norender, want)
 		}
+		if x, ok := o.(*conf_v1.VirtualServerRoute); ok {
+			// a route that is not attached to its VirtualServer renders nothing: every subroute path must show up somewhere
+			for _, sr := range x.Spec.Subroutes {
+				found := false
+				p := strings.TrimSpace(strings.TrimLeft(sr.Path, "~*= "))
+				for _, c := range files {
+					if strings.Contains(c, p) {
+						found = true
+					}
+				}
+				if !found {
+					norender = append(norender, "vsr:"+x.Name+":"+sr.Path)
+				}
+			}
+		}
 	}
 	return fmt.Sprintf("fixtures=%d#rejected=%s#files=%s#malformed=%s#norender=%s", len(objs), strings.Join(rejected, ","), strings.Join(names, ","), strings.Join(bad, ","), strings.Join(norender, ","))
 }
@@ -1136,6 +1151,29 @@ func VerifInj(kv map[string]string) string {
 		names = append(names, f)
 	}
 	sort.Strings(names)
+	written := false
+	for _, f := range names {
+		if strings.Contains(files[f], verifMarkA) {
+			written = true
+		}
+	}
+	if kv["sk"] == "1" && written {
+		// the payload is white space / a backslash at the very end of the value: whatever becomes of it, the directive / block
+		// skeleton of every file must be the one of the unmodified fixture
+		base, err := verifFixtureSet(plus, "", nil, fx)
+		if err != nil {
+			return "fixture-error"
+		}
+		bfiles, _, err := verifRenderSet(plus, base, host)
+		if err != nil {
+			return "setup-error"
+		}
+		for _, f := range names {
+			if a, b := verifSkeleton(files[f]), verifSkeleton(bfiles[f]); a != b {
+				return "acc#bad=" + verifClean(fmt.Sprintf("%s: the skeleton differs from the one of the unmodified resource: %s", f, verifFirstDiff(a, b)))
+			}
+		}
+	}
 	spans := 0
 	marks := 0
 	for _, f := range names {
@@ -1512,4 +1550,23 @@ func VerifInjWf(kv map[string]string) string {
 	dups := verifDuplicates(defs, map[string]bool{"upstream": true, "zone": true, "limit_req_zone": true, "keyval_zone": true, "cache_zone": true, "match": true,
 		"named_location": true, "server_name": true, "keyval_variable": true, "jwt_claim_variable": true})
 	return fmt.Sprintf("acc#files=%d#defs=%d#malformed=%s#arity=%s#dups=%s", len(files), len(defs), strings.Join(malformed, ","), strings.Join(arity, ","), strings.Join(dups, ","))
+}
+
+// verifSkeleton: the event sequence of a file with the argument texts erased (kind, depth, number of arguments, directive name).
+func verifSkeleton(content string) string {
+	var b strings.Builder
+	for _, e := range verifio.NgxLex(content) {
+		fmt.Fprintf(&b, "%d:%s/%d;", e.Depth, e.Kind, len(e.Args))
+	}
+	return b.String()
+}
+
+func verifFirstDiff(a, b string) string {
+	as, bs := strings.Split(a, ";"), strings.Split(b, ";")
+	for i := 0; i < len(as) && i < len(bs); i++ {
+		if as[i] != bs[i] {
+			return fmt.Sprintf("event %d is %s, was %s", i, as[i], bs[i])
+		}
+	}
+	return fmt.Sprintf("%d events, were %d", len(as), len(bs))
 }
